@@ -403,6 +403,10 @@ pub struct FaultPlan {
     /// 4 = waitpid (both only for handlers installed without SA_RESTART)
     #[serde(default)]
     pub eintr: Option<(u32, u32, u8)>,
+    /// a forked child whose launch failed takes this long from reporting the failure to being
+    /// gone (a big process is not torn down in an instant): whoever reaps it has to wait for it
+    #[serde(default)]
+    pub exit_lag_ns: u64,
 }
 
 #[derive(Clone, Debug, Default)]
